@@ -108,7 +108,7 @@ func (g *verifNestGen) body(lvl int, inLoop bool) (string, bool) {
 		return decl + ind + "match " + local + " {\n" + ind + "  0 => { println(\"never\"); },\n" + ind + "  _ => {\n" + inner + ind + "  println(\"i" + fmt.Sprint(lvl) + "\");\n" + ind + "  },\n" + ind + "}\n" + after, ok
 	case "try":
 		inner, ok := g.body(lvl+1, inLoop)
-		return decl + ind + "try {\n" + inner + ind + "  println(\"i" + fmt.Sprint(lvl) + "\");\n" + ind + "} catch e" + fmt.Sprint(lvl) + " {\n" + ind + "  println(\"caught\", e" + fmt.Sprint(lvl) + ".message);\n" + ind + "}\n" + after, ok
+		return decl + ind + "try {\n" + inner + ind + "  println(\"i" + fmt.Sprint(lvl) + "\");\n" + ind + "} catch e" + fmt.Sprint(lvl) + " {\n" + ind + "  println(\"caught\", e" + fmt.Sprint(lvl) + ".message, e" + fmt.Sprint(lvl) + ".line);\n" + ind + "}\n" + after, ok
 	case "catch":
 		inner, ok := g.body(lvl+1, inLoop)
 		return decl + ind + "try {\n" + ind + "  throw(\"first\");\n" + ind + "} catch e" + fmt.Sprint(lvl) + " {\n" + inner + ind + "  println(\"i" + fmt.Sprint(lvl) + "\");\n" + ind + "}\n" + after, ok
@@ -150,7 +150,7 @@ func (g *verifNestGen) program() (string, bool) {
 		return "", false
 	}
 	f := "fn f(p: bool) -> int {\n  println(\"in\");\n  let a0 = 10;\n" + inner + "  println(\"end\", a0);\n  return 1;\n}\n"
-	main := "fn main() {\n  println(1000 - f(P));\n  println(2000 - f(false));\n  try { throw(\"z\"); } catch e { println(e.message); }\n  println(\"done\");\n  throw(\"final\");\n}\n"
+	main := "fn main() {\n  println(1000 - f(P));\n  println(2000 - f(false));\n  try { throw(\"z\"); } catch e { println(e.message, e.line); }\n  println(\"done\");\n  throw(\"final\");\n}\n"
 	return g.helper + f + main, true
 }
 
